@@ -171,6 +171,11 @@ def numba_threads_differential(cat, entries, reps=8, counts=(2, 16)):
         if e["backend"] != "numpy" or e.get("expect_error") or e["private"]:
             continue
         pool = enlarge_entry(cat, e)
+        if e["op"] == "a_star_search":
+            # enlarge the geometry of the call with the raster: corner to corner
+            sp = pool[e["rasters"][0]]
+            e = dict(e, params=dict(e["params"], start=(float(sp["coords"]["y"][0]), float(sp["coords"]["x"][0])),
+                                    goal=(float(sp["coords"]["y"][-1]), float(sp["coords"]["x"][-1]))))
 
         def once():
             rasters = [histsim.PoolRaster(rid, pool[rid], "numpy") for rid in e["rasters"]]
